@@ -75,6 +75,14 @@ def cases(ctx):
                                [{"op": "add", "target": tgt, "other": other, "mod": mod},
                                 {"op": "add", "target": {"kind": "entry", "array": "a1", "idx": 0}, "other": copy.deepcopy(tgt), "mod": None}]
                         yield {"kind": "prog", "prog": prog, "script": []}
+    # as many register outcomes in ONE subroutine as there are M registers (16), and one fewer
+    if ctx.shard == 0:
+        for n_ in (15, 16):
+            prog = []
+            for i_ in range(n_):
+                prog += [{"op": "qalloc", "q": f"w{i_}"}, {"op": "gate", "g": "h", "q": f"w{i_}"},
+                         {"op": "meas", "q": f"w{i_}", "to": {"kind": "reg", "name": f"mr{i_}"}, "inplace": False}]
+            yield {"kind": "prog", "prog": prog, "script": [rng.randrange(2) for _ in range(24)], "family": "all-M-registers"}
     for _ in range(ctx.n(900, 120000)):
         g = HostGen(rng, max_depth=rng.choice([2, 3, 4]))
         prog = g.program(rng.randrange(2, 9), p_flush=rng.choice([0.0, 0.2, 0.4, 0.7]))
